@@ -260,3 +260,16 @@ Proof.
   intros H. apply list_eqb_eq. pose proof ggm_pairs_src_check as C. rewrite forallb_forall in C.
   apply C. apply in_seq. lia.
 Qed.
+
+(* the normalised Pauli basis is the Gell-Mann basis for d = 2 *)
+Lemma pauli1_is_ggm2 : pauli1 = ggm_basis RO 2.
+Proof.
+  unfold pauli1, sP, ggm_basis, ggm_id, ggm_sym, ggm_asym, ggm_diag, diag_norm, inv_sqrt2, sqrt2, o2.
+  rewrite !ofnat_INR. simpl INR.
+  cbv [ggm_pairs mbuild build map seq concat filter app Nat.ltb Nat.leb Nat.eqb andb orb fst snd Nat.pred cofr c0].
+  simpl.
+  replace (Rdya 1 0) with 1 by (unfold Rdya; simpl; lra). replace (Rdya 2 0) with (1 + 1) by (unfold Rdya; simpl; lra).
+  replace (1 * (1 + 1)) with (1 + 1) by ring.
+  replace (- (1) / sqrt (1 + 1)) with (- (1 / sqrt (1 + 1))) by (unfold Rdiv; ring).
+  reflexivity.
+Qed.
